@@ -29,7 +29,7 @@ func runOne(id int, seed int64, nops int, base string, pool *storeh.Pool, replay
 		panic(err)
 	}
 	defer os.RemoveAll(dir)
-	e := &storeh.Env{Dir: dir, Pool: pool}
+	e := &storeh.Env{Dir: dir, Pool: pool, RaceReader: true}
 	if err := e.Open(); err != nil {
 		panic(err)
 	}
@@ -211,6 +211,10 @@ func main() {
 				What: "concurrent readers of a quiescent store disagree with the sequential dump: " + hs[i].ConcRead, Tag: "concurrent-read"})
 		}
 		for j, op := range hs[i].Ops {
+			if op.Race != "" {
+				rep.ImplFailures = append(rep.ImplFailures, c.ImplFailure{Case: fmt.Sprint(hs[i].ID), Step: j,
+					What: op.Kind + ": " + op.Race, Tag: "uncommitted-read"})
+			}
 			if op.Panic != "" {
 				rep.ImplFailures = append(rep.ImplFailures, c.ImplFailure{Case: fmt.Sprint(hs[i].ID), Step: j,
 					What: op.Kind + " panicked (neither success nor a reported failure): " + op.Panic, Tag: "panic"})
